@@ -644,6 +644,30 @@ impl SessionManager {
     }
 }
 
+/// verif hook: size of the private per-(cluster, source-IP) accounting, so the
+/// out-of-tree verification harness (`--cfg sozu_verif`) can compare it with
+/// the idle baseline. Never compiled into a normal build.
+#[cfg(sozu_verif)]
+impl SessionManager {
+    /// `(clusters in the forward map, (cluster, ip) entries, entries whose
+    /// count is zero, empty inner maps, tokens in the reverse index,
+    /// (token, cluster, ip) triples)`
+    pub fn verif_cluster_ip_footprint(&self) -> (usize, usize, usize, usize, usize, usize) {
+        let fwd = &self.connections_per_cluster_ip;
+        let rev = &self.cluster_ip_tracks;
+        (
+            fwd.len(),
+            fwd.values().map(|m| m.len()).sum(),
+            fwd.values().map(|m| m.values().filter(|c| **c == 0).count()).sum(),
+            fwd.values().filter(|m| m.is_empty()).count()
+                + rev.values().filter(|m| m.is_empty()).count()
+                + rev.values().map(|m| m.values().filter(|s| s.is_empty()).count()).sum::<usize>(),
+            rev.len(),
+            rev.values().map(|m| m.values().map(|s| s.len()).sum::<usize>()).sum(),
+        )
+    }
+}
+
 #[derive(thiserror::Error, Debug)]
 pub enum ServerError {
     #[error("could not create event loop with MIO poll: {0}")]
